@@ -158,7 +158,7 @@ def drive(prop: str, tier: str, seed: int, replay: str | None = None) -> int:
         spec = [(i, nsh, None) for i in range(nsh)]
     watchdog = getattr(mod, 'WATCHDOG_S', {'quick': 1500, 'thorough': 6 * 3600})[tier]
     for shard, nsh, only in spec:
-        out = os.path.join(outdir, 'shards', f'{prop}-{tier}-{seed}-{shard}.json')
+        out = os.path.join(outdir, 'shards', f'{prop}-{tier}-{seed}-{shard}-{os.getpid()}.json')
         if os.path.exists(out):
             os.remove(out)
         cmd = [sys.executable, '-m', 'beanmon.shardmain', prop, tier, str(seed), str(shard), str(nsh), out]
@@ -211,7 +211,7 @@ def drive(prop: str, tier: str, seed: int, replay: str | None = None) -> int:
     wall = time.time() - t0
     replay_paths = []
     for i, v in enumerate(new_viol[:10]):
-        path = os.path.join(outdir, 'replays', f'{prop}-{tier}-seed{seed}-{i}.json')
+        path = os.path.join(outdir, 'replays', f'{prop}-{tier}-seed{seed}-{i}.json' if common.REPO_ROOT == '/repo' else f'{prop}-{tier}-seed{seed}-{i}-alt{os.getpid()}.json')
         with open(path, 'w') as f:
             json.dump({'property': prop, 'tier': tier, 'seed': seed, **v}, f, indent=1)
         replay_paths.append(path)
@@ -277,6 +277,8 @@ def write_evidence(mod, prop, tier, seed, merged, n_new, known_hit, problems, ga
         'violations': n_new,
     }
     path = os.path.join(common.VERIF_ROOT, 'evidence', f'{prop}.json')
+    if os.path.abspath(common.REPO_ROOT) != '/repo':
+        path = os.path.join(common.VERIF_ROOT, 'out', f'evidence-alt-{prop}-{os.getpid()}.json')   # mutant self-tests never touch the real evidence
     os.makedirs(os.path.dirname(path), exist_ok=True)
     with open(path, 'w') as f:
         json.dump(ev, f, indent=1, sort_keys=True)
